@@ -40,6 +40,11 @@ func finalize(t *rapid.T, s *rt.Sub, sess *gen.Session, resp []byte, class strin
 	o := rt.GuardLite(func() { toks, err = sess.Finalize(append([]byte{}, resp...)) })
 	if !bytes.Equal(resp, honest) {
 		s.Nontrivial(sess.RequestBytes, resp)
+	} else {
+		// the transformation did not change anything (e.g. two equal elements of a batch swapped - equal nonces and equal
+		// blinds can be drawn): this IS the honest response
+		mustReject = false
+		s.Class("transformation-without-effect")
 	}
 	if o.Panic != nil {
 		// "in every other case it returns an error": a panic is not an error return
